@@ -32,6 +32,10 @@
 //	    a fresh repository gets nProbes probe keys, nOther other keys and last 8 sentinel keys; the sentinels are polled until one
 //	    is accepted again - which proves that a clean-up with a tick past the sentinel's (hence every probe's) expiry ran -
 //	    and then every probe is presented once more: each must be accepted again (no wall-clock bound involved).
+//	share / sharec                                 several wrappers built from ONE Deduplicator value share its state (see share.go)
+//	idle <via> <w_ms> <workers> <budget_ms>         OBS reaccepted | stuck.  Each worker owns a repository and repeats: present a new key,
+//	    wait until the clean-up emptied the repository (Len() == 0), present the next new key at once (an arrival right
+//	    after the repository became empty); a key that is not cleaned within 100 windows is polled until it is accepted again.
 //	router <n> <nkeys>                             OBS handled=<h> acked=<a>  (a real Router + GoChannel; every message is acked, one handled per key)
 package main
 
@@ -1245,6 +1249,24 @@ func runReq(req string) (string, string, error) {
 			return req, "", errors.New("ctxc args")
 		}
 		return req, runCtxConc(f[1], k, y, gs, nk), nil
+	case "share", "sharec":
+		obs, err := runShareReq(f)
+		if err != nil {
+			return req, "", err
+		}
+		return req, obs, nil
+	case "idle":
+		if len(f) != 5 {
+			return req, "", errors.New("fields")
+		}
+		ms, e1 := strconv.Atoi(f[2])
+		wk, e2 := strconv.Atoi(f[3])
+		bud, e3 := strconv.Atoi(f[4])
+		if e1 != nil || e2 != nil || e3 != nil || ms < 1 || wk < 1 || wk > 64 || bud < 1 || bud > 600000 || (f[1] != "repo" && f[1] != "mw" && f[1] != "dec") {
+			return req, "", errors.New("idle args")
+		}
+		obs, _ := runIdle(f[1], time.Duration(ms)*time.Millisecond, wk, time.Duration(bud)*time.Millisecond)
+		return req, obs, nil
 	case "volume":
 		if len(f) != 5 {
 			return req, "", errors.New("fields")
